@@ -177,6 +177,80 @@ impl SubReport {
     }
 }
 
+impl SubReport {
+    pub fn to_json(&self) -> Value {
+        let mut nt: Vec<u64> = self.nontrivial.iter().copied().collect();
+        nt.sort();
+        json!({
+            "name": self.name,
+            "evaluations": self.evaluations,
+            "nontrivial": nt,
+            "samples": self.samples,
+            "first_case": self.first_case,
+            "classes": self.classes,
+            "exhaustive": self.exhaustive,
+            "failure": self.failure.as_ref().map(|f| json!({"sub": f.sub, "case": f.case, "reason": f.reason})),
+            "inconclusive": self.inconclusive,
+            "extra": self.extra,
+        })
+    }
+
+    pub fn from_json(v: &Value) -> Option<SubReport> {
+        let mut r = SubReport::new(v["name"].as_str()?);
+        r.evaluations = v["evaluations"].as_u64()?;
+        r.nontrivial = v["nontrivial"].as_array()?.iter().filter_map(|x| x.as_u64()).collect();
+        r.samples = v["samples"].as_array().cloned().unwrap_or_default();
+        r.first_case = if v["first_case"].is_null() { None } else { Some(v["first_case"].clone()) };
+        if let Some(m) = v["classes"].as_object() {
+            for (k, c) in m {
+                r.classes.insert(k.clone(), c.as_u64().unwrap_or(0));
+            }
+        }
+        r.exhaustive = v["exhaustive"].as_bool().unwrap_or(false);
+        if v["failure"].is_object() {
+            r.failure = Some(Failure {
+                sub: v["failure"]["sub"].as_str().unwrap_or("").to_string(),
+                case: v["failure"]["case"].clone(),
+                reason: v["failure"]["reason"].as_str().unwrap_or("").to_string(),
+            });
+        }
+        r.inconclusive = v["inconclusive"].as_str().map(|s| s.to_string());
+        if let Some(m) = v["extra"].as_object() {
+            for (k, x) in m {
+                r.extra.insert(k.clone(), x.clone());
+            }
+        }
+        Some(r)
+    }
+}
+
+/// Run a sibling engine binary (same directory as the current executable) that prints one
+/// SubReport as JSON on its last stdout line.
+pub fn sub_report_from(engine: &str, args: &[&str], name: &str) -> SubReport {
+    let fail = |msg: String| {
+        let mut r = SubReport::new(name);
+        r.inconclusive = Some(format!("HARNESS: {msg}"));
+        r
+    };
+    let exe = match std::env::current_exe() {
+        Ok(e) => e.with_file_name(engine),
+        Err(e) => return fail(format!("current_exe: {e}")),
+    };
+    let out = match std::process::Command::new(&exe).args(args).output() {
+        Ok(o) => o,
+        Err(e) => return fail(format!("cannot run {}: {e}", exe.display())),
+    };
+    let stdout = String::from_utf8_lossy(&out.stdout);
+    for line in stdout.lines().rev() {
+        if let Ok(v) = serde_json::from_str::<Value>(line) {
+            if let Some(r) = SubReport::from_json(&v) {
+                return r;
+            }
+        }
+    }
+    fail(format!("{} printed no sub-report: {}", exe.display(), String::from_utf8_lossy(&out.stderr).chars().take(800).collect::<String>()))
+}
+
 const MAX_SAMPLE_BYTES: usize = 4000;
 
 /// Run `f` over `cases` values drawn from `strat` with a seed derived from
